@@ -74,7 +74,7 @@ theorem isInd_of_indicator (I : SeqInst) (hL : 3 ≤ I.L) (x : Vec) (w : ℕ →
       rw [this]
       rfl
 
-/-! ## statements to prove (replace every `sorry`) -/
+/-! ## property theorems -/
 
 /-- **soundness and completeness**: a binary vector satisfies all linear and quadratic constraints the
     object reports iff it is the indicator of per-vehicle walks with absorbing depot that visit every
